@@ -30,6 +30,7 @@ mod eng_file70;
 mod eng_pairtcp;
 mod gen_pairtcp;
 mod mon_pairtcp;
+mod eng_ffimeas;
 
 use std::io::Write;
 
@@ -51,6 +52,7 @@ fn main() {
                 "linkaddr" => eng_transport::gen_linkaddr(thorough, seed, &mut out),
                 "parse" => eng_parse::gen(thorough, seed, &mut out),
                 "ffi" => eng_ffi::gen(thorough, seed, &mut out),
+                "ffimeas" => eng_ffimeas::gen(thorough, seed, &mut out),
                 "db" => eng_db::gen(thorough, seed, &mut out),
                 "attr" => eng_attr::gen(thorough, seed, &mut out),
                 "file70" => eng_file70::gen(thorough, seed, &mut out),
@@ -81,6 +83,7 @@ fn main() {
                 "transport" | "linkaddr" => eng_transport::run(&ops, &mut out, &mut mon),
                 "parse" => eng_parse::run(&ops, &mut out, &mut mon),
                 "ffi" => eng_ffi::run(&ops, &mut out, &mut mon),
+                "ffimeas" => eng_ffimeas::run(&ops, &mut out, &mut mon),
                 "db" => eng_db::run(&ops, &mut out, &mut mon),
                 "attr" => eng_attr::run(&ops, &mut out, &mut mon),
                 "file70" => eng_file70::run(&ops, &mut out, &mut mon),
